@@ -20,7 +20,10 @@ Every theorem quantifies over ALL runs: any ring configuration with
 0, 1, 2), any list of steps (creating operations, polling and dropping
 futures, dropping AsyncFds with a full or non-full queue, explicit closes,
 kernel answers with any fresh descriptor numbers below 2^31 — including numbers
-that were closed earlier — or errors, `Ring::poll`). The environment's
+that were closed earlier — or errors, among them EINVAL ("kernel too old"),
+after which the poll of a `pipe` future calls `pipe2(2)` synchronously, with
+any answer of that call: two fresh regular descriptors or an errno —,
+`Ring::poll`). The environment's
 contract (KC8: returned numbers are not open at that moment, are within the
 table, are non-negative `i32`s) is the guard `Sys.kernelOk` of the kernel's
 move `Sys.kpost`; the user contract (Rust's borrow rules: an AsyncFd borrowed
@@ -293,6 +296,265 @@ example :
        .poll 1, .dropOp 1, .kpost 1 (.ok [203]) true, .kpost 1 (.err 125) false,
        .dropH 0, .dropH 1, .rpoll]).descs.map (fun e => (e.raw, e.st, e.closes))) =
       [(200, .closed, 1), (201, .closed, 1), (202, .lost, 0), (203, .lost, 0)] := by decide
+
+/-! ### The old-kernel fallback of `pipe` (EINVAL → synchronous `pipe2`) -/
+
+theorem Reachable.step {s : Sys} (h : Reachable s) (st : Step) : Reachable (s.next st) := by
+  obtain ⟨sqLen, slotLo, slots, fileLo, fileHi, steps, hlo, rfl⟩ := h
+  exact ⟨sqLen, slotLo, slots, fileLo, fileHi, steps ++ [st], hlo, by simp [run, List.foldl_append]⟩
+
+theorem reachable_sync {s : Sys} (h : Reachable s) : SyncOk s := by
+  obtain ⟨sqLen, slotLo, slots, fileLo, fileHi, steps, _, rfl⟩ := h
+  exact run_sync steps (start_sync sqLen slotLo slots fileLo fileHi)
+
+/-- The descriptors created by the fallback (`PipeOp::fallback`: the kernel answered EINVAL to
+`IORING_OP_PIPE`, the poll called `pipe2(2)`; ghost mark `Desc.sync`), in EVERY reachable state,
+whatever kind the caller had requested (`.kind(Direct)` included): they are REGULAR descriptors;
+each has been wrapped in exactly one AsyncFd (`wraps = 1`: it never sits unwrapped in an
+operation and is never lost, abandoned futures included); while owned, its AsyncFd is live, is
+of kind File (`kind()` of its word) and carries exactly that number, and owns nothing else; the
+exactly-once ledger covers it: it is never closed twice, it is closed only through the request
+of its own AsyncFd, and at quiescence it has been closed exactly once or has a live owner —
+without the `NoneAbandoned` hypothesis the completion-delivered descriptors need. -/
+theorem C07_pipe_fallback_regular {s : Sys} (h : Reachable s) :
+    ∀ (d : Nat) (e : Desc), s.descs[d]? = some e → e.sync = true →
+      e.kind = .file ∧ 3 ≤ e.raw ∧ e.raw < 2147483648 ∧ e.wraps = 1 ∧
+      (∀ i, e.st ≠ .pending i) ∧ e.st ≠ .lost ∧
+      e.closes ≤ 1 ∧ (e.closes = 1 ↔ e.st = .closed) ∧
+      (∀ a, e.st = .owned a →
+        (∃ hd, s.handles[a]? = some hd ∧ hd.live = true ∧ hd.std = false ∧
+          kindOf hd.word = .file ∧ fdOf hd.word = e.raw) ∧
+        (∀ (d' : Nat) (e' : Desc), s.descs[d']? = some e' → e'.st = .owned a → d' = d)) ∧
+      (e.st = .released → (Kind.file, e.raw) ∈ s.targets) ∧
+      (Quiescent s → ClosePolled s → Settled s e) := by
+  have hi := reachable_inv h
+  have hs := reachable_sync h
+  intro d e he hsync
+  have x := hi.desc d e he
+  obtain ⟨hkind, hwr⟩ := hs e (List.mem_of_getElem? he) hsync
+  have hnp : ¬ ((∃ i, e.st = .pending i) ∨ e.st = .lost) := by
+    intro c
+    have := x.wr0 c
+    omega
+  have hw1 : e.wraps = 1 := x.wr1 hnp
+  have hcl := (C07_closes_le_one h).2 d e he
+  refine ⟨hkind, x.std hkind, x.raw, hw1, fun i c => hnp (Or.inl ⟨i, c⟩), fun c => hnp (Or.inr c),
+    hcl.1, hcl.2, ?_, ?_, ?_⟩
+  · intro a ha
+    obtain ⟨hd, g1, g2, g3, g4⟩ := x.own a ha
+    refine ⟨⟨hd, g1, g2, g3, ?_, ?_⟩, fun d' e' he' ha' => hi.owned_unique he' he ha' ha⟩
+    · rw [g4, kindOf_fromRaw _ _ x.raw]; exact hkind
+    · rw [g4, fdOf_fromRaw _ _ x.raw]
+  · intro hr
+    have := x.rel hr
+    rw [hkind] at this
+    exact this
+  · intro hq hc
+    obtain ⟨hsq, hdq⟩ := hq
+    cases hst : e.st with
+    | pending i => exact absurd ⟨i, hst⟩ (fun c => hnp (Or.inl c))
+    | closeFut j => exact absurd hst ((hdq d e he).2 j)
+    | lost => exact absurd (Or.inr hst) hnp
+    | forfeited => exact absurd hst (hc d e he)
+    | closed => exact Or.inl (x.closed hst)
+    | released =>
+      have := x.rel hst
+      unfold Sys.targets at this
+      rw [hsq] at this
+      simp at this
+    | owned a =>
+      obtain ⟨hd, g1, g2, _, _⟩ := x.own a hst
+      exact Or.inr ⟨a, hd, hst, g1, g2⟩
+
+theorem map_eq_self {l : List Desc} {g : Desc → Desc} (h : ∀ e ∈ l, g e = e) : l.map g = l := by
+  induction l with
+  | nil => rfl
+  | cons a t ih =>
+    simp only [List.map_cons]
+    rw [h a (by simp), ih (fun e he => h e (by simp [he]))]
+
+/-- Ledger entry of a descriptor the fallback created: regular, number `r`, wrapped once, owned
+by AsyncFd number `h`. -/
+def fbDesc (r h : Nat) : Desc := { kind := .file, raw := r, st := .owned h, wraps := 1, sync := true }
+
+/-- The AsyncFd `AsyncFd::from_raw(r, fd::Kind::File, sq)`. -/
+def fbHandle (r : Nat) : Handle := { word := fromRaw r .file }
+
+/-- The step that creates them, exactly: a live `pipe` future whose operation finished with
+`-EINVAL` is polled, `pipe2` returns `[r1, r2]` (any two numbers the kernel may return: not open,
+distinct, in range). Whatever kind `o.req` the caller asked for, the ledger gains exactly two
+REGULAR descriptors, each owned by exactly one new AsyncFd whose word is `from_raw(r, File)`
+(so `kind() = File`, `fd() = r`), nothing else changes in the ledger, nothing is queued, no
+direct slot is named anywhere; the new state is reachable, so every theorem of this file applies
+to it. -/
+theorem C07_pipe_fallback_creates {s : Sys} (h : Reachable s) (i : Nat) (o : FOp) (r1 r2 : Nat)
+    (hio : s.ops[i]? = some o) (hd : o.pipe2Due = true) (hk : s.kernelOk .file [r1, r2] = true) :
+    (s.next (.pollFb i (.ok [r1, r2]))).descs =
+      s.descs ++ [fbDesc r1 s.handles.length, fbDesc r2 (s.handles.length + 1)] ∧
+    (s.next (.pollFb i (.ok [r1, r2]))).handles = s.handles ++ [fbHandle r1, fbHandle r2] ∧
+    kindOf (fromRaw r1 .file) = .file ∧ fdOf (fromRaw r1 .file) = r1 ∧
+    kindOf (fromRaw r2 .file) = .file ∧ fdOf (fromRaw r2 .file) = r2 ∧
+    (s.next (.pollFb i (.ok [r1, r2]))).sq = s.sq ∧
+    (s.next (.pollFb i (.ok [r1, r2]))).closeLog = s.closeLog ∧
+    Reachable (s.next (.pollFb i (.ok [r1, r2]))) := by
+  have hi := reachable_inv h
+  have ho := hi.op i o hio
+  obtain ⟨hkind, _, _⟩ := pipe2Due_elim hd
+  have hm : o.op.multi = false := ho.single (by rw [hkind]; simp)
+  have hk' := hk
+  unfold Sys.kernelOk at hk'
+  simp only [Bool.and_eq_true, decide_eq_true_eq, List.all_eq_true, Bool.not_eq_eq_eq_not,
+    Bool.not_true, decide_eq_false_iff_not] at hk'
+  obtain ⟨hnd, hall⟩ := hk'
+  have hne : r1 ≠ r2 := by
+    intro c; subst c; simp at hnd
+  obtain ⟨⟨hlt1, _⟩, hf1⟩ := hall r1 (by simp)
+  obtain ⟨⟨hlt2, _⟩, hf2⟩ := hall r2 (by simp)
+  have hstep : s.next (.pollFb i (.ok [r1, r2])) =
+      (Sys.wrap { s with
+        ops := s.ops.set i { o with op :=
+          { o.op with status := .complete, resInit := false, resDrops := o.op.resDrops + 1 } },
+        descs := s.descs ++ [Desc.freshS true .file (.pending i) r1, Desc.freshS true .file (.pending i) r2] }
+        i .file [r1, r2]).1 := by
+    show (s.pollFb i (.ok [r1, r2])).1 = _
+    unfold Sys.pollFb
+    simp only [hio, hd, hk, pollCore_due hio hd hm]
+    simp
+  refine ⟨?_, ?_, kindOf_fromRaw _ _ hlt1, fdOf_fromRaw _ _ hlt1, kindOf_fromRaw _ _ hlt2,
+    fdOf_fromRaw _ _ hlt2, ?_, ?_, h.step _⟩
+  · rw [hstep]
+    simp only [Sys.wrap, List.map_append, List.map_map]
+    congr 1
+    · apply map_eq_self
+      intro e he
+      have n1 : ¬ (e.st = .pending i ∧ e.kind = .file ∧ e.raw = r1 ∧ e.closes = 0) :=
+        fun c => hf1 e he ⟨c.2.1, c.2.2.1, c.2.2.2⟩
+      have n2 : ¬ (e.st = .pending i ∧ e.kind = .file ∧ e.raw = r2 ∧ e.closes = 0) :=
+        fun c => hf2 e he ⟨c.2.1, c.2.2.1, c.2.2.2⟩
+      simp [n1, n2]
+    · have hne' : ¬ r2 = r1 := fun c => hne c.symm
+      simp [Desc.freshS, fbDesc, hne, hne']
+  · rw [hstep]
+    simp [Sys.wrap, fbHandle]
+  · rw [hstep]
+    exact (wrap_frame _ i .file [r1, r2]).1
+  · rw [hstep]
+    simp [Sys.wrap]
+
+/-- `pipe2` runs only inside the poll of a LIVE pipe future that reads `-EINVAL`: for any other
+operation — dropped before that poll (abandoned: then the EINVAL completion only frees the
+state), still running, of another kind, or holding another error — the step does not exist
+(nothing changes at all), and the plain poll of such a future never creates a descriptor by a
+system call. If `pipe2` itself fails, the future resolves with that error and the ledger, the
+AsyncFds, the queue and the kernel's close log are exactly as before. -/
+theorem C07_pipe_fallback_only_live_poll (s : Sys) (i : Nat) (fb : Fb) :
+    ((∀ o, s.ops[i]? = some o → o.pipe2Due = false) → s.next (.pollFb i fb) = s) ∧
+    (∀ o, s.ops[i]? = some o → o.op.futLive = false → o.pipe2Due = false) ∧
+    (∀ e, (s.next (.pollFb i (.fail e))).descs = s.descs ∧
+      (s.next (.pollFb i (.fail e))).handles = s.handles ∧
+      (s.next (.pollFb i (.fail e))).sq = s.sq ∧
+      (s.next (.pollFb i (.fail e))).closeLog = s.closeLog) := by
+  refine ⟨?_, ?_, ?_⟩
+  · intro hnd
+    show (s.pollFb i fb).1 = s
+    unfold Sys.pollFb
+    cases hio : s.ops[i]? with
+    | none => rfl
+    | some o => simp [hnd o hio]
+  · intro o _ hl
+    unfold FOp.pipe2Due
+    simp [hl]
+  · intro e
+    show (s.pollFb i (.fail e)).1.descs = s.descs ∧ (s.pollFb i (.fail e)).1.handles = s.handles ∧
+      (s.pollFb i (.fail e)).1.sq = s.sq ∧ (s.pollFb i (.fail e)).1.closeLog = s.closeLog
+    unfold Sys.pollFb
+    cases hio : s.ops[i]? with
+    | none => exact ⟨rfl, rfl, rfl, rfl⟩
+    | some o =>
+      simp only []
+      cases hd : o.pipe2Due with
+      | false => exact ⟨rfl, rfl, rfl, rfl⟩
+      | true =>
+        simp only [Bool.not_true, Bool.false_eq_true, if_false]
+        split
+        · exact ⟨rfl, rfl, rfl, rfl⟩
+        · obtain ⟨_, hl, r, x, r', hs, hn, hx⟩ := pipe2Due_elim hd
+          -- the poll reads an error: nothing is submitted, nothing is wrapped
+          have hp : ∃ op', (o.op.poll i s.sqRoom).1 = op' ∧ (o.op.poll i s.sqRoom).2.2 = [] ∧
+              ∃ e', (o.op.poll i s.sqRoom).2.1 = .readyErr e' := by
+            unfold Op.poll Op.pollAux
+            cases o.op.multi <;> simp [hs, hn, hx, EINTR, ECANCELED]
+          obtain ⟨op', _, h2, e', h3⟩ := hp
+          unfold Sys.pollCore
+          simp only [hio, hl]
+          generalize o.op.poll i s.sqRoom = p at h2 h3
+          obtain ⟨op1, out, effs⟩ := p
+          simp only at h2 h3
+          subst h2 h3
+          simp
+
+/-- An EINVAL completion — like every error completion, for every kind of operation (open,
+socket, accept, multishot accept, the conversions, pipe) — creates nothing: no descriptor, no
+AsyncFd, no close request. (What the caller sees is `ErrorKind::Unsupported` from the default
+`fallback`, the unchanged error from the conversions' and, for errors other than EINVAL, pipe's.) -/
+theorem C07_error_completion_creates_nothing (s : Sys) (i : Nat) (e : Nat) (more : Bool) :
+    (s.next (.kpost i (.err e) more)).descs = s.descs ∧
+    (s.next (.kpost i (.err e) more)).handles = s.handles ∧
+    (s.next (.kpost i (.err e) more)).sq = s.sq ∧
+    (s.next (.kpost i (.err e) more)).closeLog = s.closeLog := by
+  show (s.kpost i (.err e) more).1.descs = s.descs ∧ (s.kpost i (.err e) more).1.handles = s.handles ∧
+    (s.kpost i (.err e) more).1.sq = s.sq ∧ (s.kpost i (.err e) more).1.closeLog = s.closeLog
+  unfold Sys.kpost
+  split
+  · exact ⟨rfl, rfl, rfl, rfl⟩
+  · cases hio : s.ops[i]? with
+    | none => exact ⟨rfl, rfl, rfl, rfl⟩
+    | some o =>
+      simp only []
+      split
+      · exact ⟨rfl, rfl, rfl, rfl⟩
+      · split
+        · exact ⟨rfl, rfl, rfl, rfl⟩
+        · have hf := deliver_frame { s with inflight := if more then s.inflight else s.inflight.erase i } i
+            ⟨-(e : Int), if more then 2 else 0⟩
+          exact ⟨hf.1, hf.2.1, hf.2.2.1, hf.2.2.2.2.1⟩
+
+/-- Non-vacuity and the scenario of the missed change: `pipe` with `.kind(Direct)` on a ring
+with a direct table whose slots 0..3 are in use by other AsyncFds' numbers; the kernel answers
+EINVAL; the poll calls `pipe2`, which returns 200 and 201. Both become regular descriptors owned
+by AsyncFds of kind File (words 200 and 201, no sign bit); dropping them closes regular 200 and
+201 (one through the ring, one — the queue being full — through `close(2)`), and the direct
+slot 1 owned by the other AsyncFd is untouched. -/
+example :
+    let s := run (start 1 0 4 200 456)
+      [.newOp .socket .direct 0, .poll 0, .rpoll, .kpost 0 (.ok [1]) false, .poll 0,
+       .newOp .pipe .direct 0, .poll 1, .rpoll, .kpost 1 (.err 22) false,
+       .poll 1,                       -- refused: the environment has to answer `pipe2`
+       .pollFb 1 (.ok [200, 201]),
+       .dropH 1, .dropH 2, .rpoll]
+    s.descs.map (fun e => (e.kind, e.raw, e.st, e.closes, e.wraps, e.sync)) =
+      [(.direct, 1, .owned 0, 0, 1, false), (.file, 200, .closed, 1, 1, true),
+       (.file, 201, .closed, 1, 1, true)] ∧
+    s.handles.map (fun h => (kindOf h.word, fdOf h.word, h.live)) =
+      [(.direct, 1, true), (.file, 200, false), (.file, 201, false)] ∧
+    s.closeLog = [(.file, 201), (.file, 200)] ∧ s.strays = 0 ∧ s.sq = [] := by decide
+
+/-- The future dropped before the poll (nothing is created, `pipe2` cannot run any more), an
+EINVAL completion for an abandoned pipe, `pipe2` failing with EMFILE, and EINVAL for the other
+kinds of operation: the ledger stays empty. -/
+example :
+    let s := run (start 4 0 4 200 456)
+      [.newOp .pipe .direct 0, .poll 0, .rpoll, .kpost 0 (.err 22) false, .dropOp 0,
+       .pollFb 0 (.ok [200, 201]),
+       .newOp .pipe .file 0, .poll 1, .rpoll, .dropOp 1, .kpost 1 (.err 22) false,
+       .pollFb 1 (.ok [200, 201]),
+       .newOp .pipe .file 0, .poll 2, .rpoll, .kpost 2 (.err 22) false, .pollFb 2 (.fail 24),
+       .newOp .open .direct 0, .poll 3, .rpoll, .kpost 3 (.err 22) false, .poll 3,
+       .newOp .socket .file 0, .poll 4, .rpoll, .kpost 4 (.err 22) false, .pollFb 4 (.ok [200, 201])]
+    s.descs = [] ∧ s.handles = [] ∧ s.sq = [] ∧
+    (s.ops.map (fun o => (o.op.status, o.op.futLive))) =
+      [(.done (.single ⟨-22, 0⟩), false), (.dropped, false), (.complete, true), (.complete, true),
+       (.done (.single ⟨-22, 0⟩), true)] := by decide
 
 /-! ### Non-vacuity: reachable, quiescent states in which every path was taken -/
 
